@@ -5,7 +5,8 @@ P=$(readlink -f "$1"); shift
 S=$(mktemp -d /tmp/seedrun.XXXXXX)
 mkdir -p "$S/repo" "$S/out"
 cp -r /repo/ciw "$S/repo/ciw"
-( cd "$S/repo" && git init -q . >/dev/null 2>&1 && git apply "$P" ) || { echo "patch does not apply"; rm -rf "$S"; exit 3; }
+# (seeds were written against earlier commits of /repo: fall back to patch(1) with fuzz when the context has moved)
+( cd "$S/repo" && git init -q . >/dev/null 2>&1 && { git apply "$P" 2>/dev/null || patch -p1 -F 3 -s --no-backup-if-mismatch < "$P"; } ) || { echo "patch does not apply"; rm -rf "$S"; exit 3; }
 cd "$(dirname "$0")/.." || exit 2
 for id in "$@"; do
   CIWMC_TARGET="$S/repo" CIWMC_OUT="$S/out" ./check "$id" --tier "${TIER:-quick}" 2>&1 | grep -v "^WARNING conda" | grep -E "VIOLATION|KNOWN|HARNESS|clause=|quick:|thorough:" | cut -c1-400
